@@ -32,7 +32,7 @@ ASSUMPTIONS = [
     "watchdog aborts (a task blocked on a real lock held by a parked thread) are inconclusive, never violations",
     "context_behavior and template_cache_size are process-wide settings, fixed per case",
 ]
-BOUNDS = {"quick": {"hyp": 480, "single_pairs": 16, "double_pairs": 5}, "thorough": {"hyp": 40000, "single_pairs": 28, "double_pairs": 5}}
+BOUNDS = {"quick": {"hyp": 480, "single_pairs": 17, "double_pairs": 5}, "thorough": {"hyp": 40000, "single_pairs": 29, "double_pairs": 5}}
 CFG = {"provide": True, "inject": True, "errors": False, "isfilled": False, "max_nodes": 3, "max_comps": 2, "max_depth": 2, "provide_weight": 3, "inject_pct": 70, "ticks": True, "hooks": False, "elems": True, "idecho": True}
 
 CFG_ASSETS = {"assets": True, "errors": False, "isfilled": False, "max_nodes": 3, "max_comps": 3, "max_depth": 2, "elems": True}
@@ -275,10 +275,38 @@ def lru_errors():
     return errs
 
 
+class _real_ids:
+    """For cases with "realids": the library's own id generator runs (the harness normally replaces it by a counter), fed
+    by a deterministic byte source instead of os.urandom so that a run stays a function of the case and the schedule."""
+
+    def __init__(self, case):
+        self.on = bool(case.get("realids"))
+
+    def __enter__(self):
+        if self.on:
+            import hashlib
+            import itertools
+
+            import django_components.util.nanoid as nanoid
+
+            counter = itertools.count(1)
+            self._orig = nanoid.urandom
+            nanoid.urandom = lambda n: (hashlib.sha256(b"%d" % next(counter)).digest() * (n // 32 + 1))[:n]
+            env.patch_ids(False)
+
+    def __exit__(self, *a):
+        if self.on:
+            import django_components.util.nanoid as nanoid
+
+            nanoid.urandom = self._orig
+            env.patch_ids(True)
+        return False
+
+
 def run_case(case, schedule, points, keep_trace=False):
     """Returns (results, scheduler) of one scheduled run from a fresh library state."""
     env.reset()
-    with env.components_settings(context_behavior=case["mode"], template_cache_size=case.get("cache_size", 2)), sched.coop_locks():
+    with _real_ids(case), env.components_settings(context_behavior=case["mode"], template_cache_size=case.get("cache_size", 2)), sched.coop_locks():
         tasks = build_tasks(case)
         s = sched.Scheduler(tasks, schedule, points)
         s.keep_trace = keep_trace
@@ -292,7 +320,7 @@ def solo_results(case):
     out = []
     for i in range(len(case["tasks"])):
         env.reset()
-        with env.components_settings(context_behavior=case["mode"], template_cache_size=case.get("cache_size", 2)):
+        with _real_ids(case), env.components_settings(context_behavior=case["mode"], template_cache_size=case.get("cache_size", 2)):
             tasks = build_tasks(case)
             try:
                 r = ("ok", tasks[i]())
@@ -524,6 +552,8 @@ FIXED_PAIRS = [
     {"tasks": [{"t": "dynexpr", "x": "Aa"}, {"t": "dynexpr", "x": "B"}], "mode": "django", "cache_size": 2, "yield": "all", "yield_files": ["util/tag_parser.py", "expression.py", "util/template_tag.py"]},
     {"tasks": [{"t": "sharedinst", "x": "A"}, {"t": "sharedinst", "x": "B"}], "mode": "django", "cache_size": 2, "yield": "all", "yield_files": ["component.py"]},
     {"tasks": [{"t": "sharedtpl", "x": "A"}, {"t": "sharedtpl", "x": "B"}], "mode": "isolated", "cache_size": 2, "yield": "all", "yield_files": ["component.py"]},
+    # the library's OWN id generator (normally replaced by a counter): a pre-emption before every executed line of it
+    {"tasks": [{"t": "render", "program": _ELEM}, {"t": "render", "program": _ELEM}], "mode": "django", "cache_size": 2, "realids": True, "yield": "all", "yield_files": ["util/nanoid.py"]},
     {"tasks": [{"t": "render", "program": _ELEM}, {"t": "render", "program": _ELEM}], "mode": "django", "cache_size": 2},
     {"tasks": [{"t": "render", "program": _ELEM}, {"t": "fail", "program": _ELEM, "at": 3}], "mode": "isolated", "cache_size": 2},
     {"tasks": [{"t": "compile", "srcs": [0, 0, 0, 0]}, {"t": "compile", "srcs": [1, 2, 1, 3]}], "mode": "django", "cache_size": 1},
